@@ -54,9 +54,10 @@ static L_SERVICES: WithLogs = WithLogs { inner: &services::Services, name: "secr
 static L_RELAY: WithLogs = WithLogs { inner: &relay::Relay, name: "secrets-relay" };
 static L_H1: WithLogs = WithLogs { inner: &h1::H1, name: "secrets-h1" };
 static L_DEMUX: WithLogs = WithLogs { inner: &demux::Demux, name: "secrets-demux" };
+static L_SOCKS: WithLogs = WithLogs { inner: &socks::Socks, name: "secrets-socks" };
 
 pub fn all() -> Vec<&'static dyn Scenario> {
-    vec![&relay::Relay, &AUTH, &RESPONSES, &EGRESS, &h1::H1, &timeouts::Timeouts, &forward::Forward, &services::Services, &metrics::Metrics, &UDPCODEC, &UDPFLOWS, &socks::Socks, &rules::Rules, &demux::Demux, &handshake::Handshake, &handshake::ClientHello, &icmp::Icmp, &shutdown::ShutdownScn, &byzantine::Byzantine, &L_AUTH, &L_RESPONSES, &L_FORWARD, &L_SERVICES, &L_RELAY, &L_H1, &L_DEMUX]
+    vec![&relay::Relay, &AUTH, &RESPONSES, &EGRESS, &h1::H1, &timeouts::Timeouts, &forward::Forward, &services::Services, &metrics::Metrics, &UDPCODEC, &UDPFLOWS, &socks::Socks, &rules::Rules, &demux::Demux, &handshake::Handshake, &handshake::ClientHello, &icmp::Icmp, &shutdown::ShutdownScn, &byzantine::Byzantine, &L_AUTH, &L_RESPONSES, &L_FORWARD, &L_SERVICES, &L_RELAY, &L_H1, &L_DEMUX, &L_SOCKS]
 }
 
 pub fn by_name(name: &str) -> Option<&'static dyn Scenario> {
